@@ -277,7 +277,7 @@ func init() {
 			}
 		}
 		var msg Value = format
-		if p.E.FormatErrors {
+		if p.E.FormatErrors || p.formatErrors {
 			msg = p.sprintf(format, args)
 		}
 		switch len(wrapped) {
@@ -456,6 +456,10 @@ func init() {
 		if allConcrete(a) {
 			return p.nativeInvoke(reflect.ValueOf(strconv.ParseFloat), fn, a), true
 		}
+		if strLen(a[0]) <= 6 {
+			// short symbolic text: interpret the real strconv.ParseFloat
+			return nil, false
+		}
 		// nondeterministic: finite value / range error / syntax error
 		switch p.choose(make([]*smt.Term, 3)) {
 		case 0:
@@ -466,9 +470,9 @@ func init() {
 		case 1:
 			sign := p.newVar("pfs", smt.BoolSort)
 			inf := p.C.Ite(sign, p.C.FP(math.Inf(-1)), p.C.FP(math.Inf(1)))
-			return Tuple{inf, p.errorsNew("strconv.ParseFloat: value out of range")}, true
+			return Tuple{inf, p.nativeError(&strconv.NumError{Func: "ParseFloat", Num: "?", Err: strconv.ErrRange})}, true
 		}
-		return Tuple{float64(0), p.errorsNew("strconv.ParseFloat: invalid syntax")}, true
+		return Tuple{float64(0), p.nativeError(&strconv.NumError{Func: "ParseFloat", Num: "?", Err: strconv.ErrSyntax})}, true
 	}
 	externals["strconv.FormatFloat"] = func(p *Path, _ *frame, fn *ssa.Function, a []Value) (Value, bool) {
 		if allConcrete(a) {
@@ -498,7 +502,7 @@ func init() {
 		if an.Mode == 0 {
 			return Tuple{an.I, Iface{}}, true
 		}
-		return Tuple{int64(0), p.errorsNew("strconv.ParseInt: invalid syntax or out of range")}, true
+		return Tuple{int64(0), p.nativeError(&strconv.NumError{Func: "ParseInt", Num: "1e400", Err: strconv.ErrSyntax})}, true
 	}
 	externals["(encoding/json.Number).Float64"] = func(p *Path, _ *frame, _ *ssa.Function, a []Value) (Value, bool) {
 		an, ok := a[0].(*AbsNum)
@@ -508,7 +512,7 @@ func init() {
 		if an.Mode <= 1 {
 			return Tuple{an.F, Iface{}}, true
 		}
-		return Tuple{math.Inf(1), p.errorsNew("strconv.ParseFloat: value out of range")}, true
+		return Tuple{math.Inf(1), p.nativeError(&strconv.NumError{Func: "ParseFloat", Num: "1e400", Err: strconv.ErrRange})}, true
 	}
 	externals["(encoding/json.Number).String"] = func(p *Path, _ *frame, _ *ssa.Function, a []Value) (Value, bool) {
 		return a[0], true
@@ -611,6 +615,11 @@ func init() {
 		}
 		return nil, false
 	}
+
+	ident := func(p *Path, _ *frame, _ *ssa.Function, a []Value) (Value, bool) { return a[0], true }
+	externals["internal/stringslite.Clone"] = ident
+	externals["strings.Clone"] = ident
+	externals["internal/abi.NoEscape"] = ident
 
 	// ---- reflect (keyvalue ids) ----
 	externals["reflect.ValueOf"] = func(p *Path, _ *frame, _ *ssa.Function, a []Value) (Value, bool) {
@@ -757,6 +766,10 @@ func (p *Path) encodeRune(r Value) []Value {
 // exact for integral |x| < 1000 (the digits are computed), opaque otherwise.
 func (p *Path) formatFloatSym(x *smt.Term) Value {
 	C := p.C
+	if !p.exactSmallFloats {
+		p.note("stub: strconv.FormatFloat(symbolic) is an opaque text")
+		return "⟨float⟩"
+	}
 	abs := C.FpAbs(x)
 	integral := C.And(C.FpEq(C.FpRound(x, smt.RMTowardZero), x), C.FpLt(abs, C.FP(1000)))
 	if p.choose([]*smt.Term{integral, C.Not(integral)}) == 1 {
@@ -878,6 +891,26 @@ func (p *Path) fromGo(rv reflect.Value, st types.Type) Value {
 
 // nativeError imports a Go error as an *errors.errorString carrying its text.
 func (p *Path) nativeError(err error) Iface {
+	if ne, ok := err.(*strconv.NumError); ok {
+		sp := p.E.Prog.ImportedPackage("strconv")
+		var inner Iface
+		name := ""
+		switch ne.Err {
+		case strconv.ErrRange:
+			name = "ErrRange"
+		case strconv.ErrSyntax:
+			name = "ErrSyntax"
+		}
+		if g, ok := sp.Members[name].(*ssa.Global); ok && name != "" {
+			inner, _ = (*p.W.globals[g]).(Iface)
+		}
+		if inner.T == nil {
+			inner = p.errorsNew(ne.Err.Error())
+		}
+		cell := new(Value)
+		*cell = Struct{ne.Func, ne.Num, inner}
+		return Iface{T: types.NewPointer(sp.Type("NumError").Type()), V: cell}
+	}
 	return p.errorsNew(err.Error())
 }
 
@@ -983,6 +1016,11 @@ func (p *Path) nativeMethod(fn *ssa.Function, args []Value) (Value, bool) {
 		}
 	}
 	if !allConcrete(args[1:]) {
+		if fn.String() == "(*regexp.Regexp).MatchString" {
+			// what a pattern matches is stdlib behaviour: nondeterministic stub
+			p.note("stub: regexp.MatchString(symbolic subject) = arbitrary bool")
+			return p.newVar("re", smt.BoolSort), true
+		}
 		p.unsupported("symbolic argument to native method %s", fn)
 	}
 	return p.nativeInvoke(m, fn, args[1:]), true
